@@ -100,6 +100,25 @@ def universe(rng, sysr):
         B[1][2][:] = [dep(X), dep(Y)]
         R2[1][2][:] = [dep(B, Y[0])]
         roots += [[R1[0], v(R1)], [R2[0], v(R2)], [R1[0], v(R1)]]
+    if len(pk) >= 5 and rng.random() < 0.35:
+        # a universe with SEVERAL valid answers (the highest P needs a lower Q and vice versa): which one is found
+        # depends on the order in which P and Q are decided, so any preference kept on the resolver from an earlier
+        # root (for which P or Q was a direct dependency) changes the graph of a later root (for which both are
+        # transitive).  Roots: the one with the direct dependency first, then the other, then again.
+        P, Q, A, M, O = rng.sample(pk, 5)
+        lo, ge = [b"<2.0.0", b"(,2.0.0)", b"<2"][sysr], [b">=1.0.0", b"[1.0.0,)", b">=1"][sysr]
+        v1, v2 = [b"1.0.0", b"2.0.0"]
+        P[1:] = [[v1, [], []], [v2, [], [[[], Q[0], lo]]]]
+        Q[1:] = [[v1, [], []], [v2, [], [[[], P[0], lo]]]]
+        both = [[[], P[0], ge], [[], Q[0], ge]]
+        rng.shuffle(both)
+        M[1][2][:] = both
+        A[1][2][:] = [[[], M[0], [b"*", b"[0.9.0,)", b">=0.9"][sysr]]]
+        O[1][2][:] = [[[], rng.choice([P, Q])[0], ge]]
+        seq = [[O[0], O[1][0]], [A[0], A[1][0]]]
+        if rng.random() < 0.3:
+            seq.reverse()
+        roots += seq + [[A[0], A[1][0]]]
     if rng.random() < 0.6:
         # several versions of ONE package resolved one after the other on the same resolver, with a
         # dependency cycle leading back to that package (resolver-level caches must not leak between roots)
